@@ -35,7 +35,7 @@ pub fn eval(sc: &Scenario) -> CaseResult {
     if r.violation.is_none() && sc.peers.len() <= 2 && !mute_spectator(sc) {
         // a host's spectator endpoint can also be disconnected by the 128-pending-inputs cap when acks
         // are lost; that path is not a timeout and is judged by C18, so it is only predicted on loss-free links
-        let lossy = sc.link.loss > 0 || !sc.faults.is_empty();
+        let lossy = sc.link.loss > 0 || !sc.faults.is_empty() || sc.ops.iter().any(|o| matches!(o, Op::Outage { from, .. } if *from > 100));
         r.violation = event_timing(sc, &out, &|n, a| lossy && n.starts_with("peer") && a > 100);
     }
     if r.violation.is_none() {
@@ -262,6 +262,37 @@ pub fn eval_restart(sc: &Scenario) -> CaseResult {
     r
 }
 
+/// A spectator whose acknowledgements (and everything else it sends) are lost for about 128 frames while the
+/// timeout is long: the host first reports NetworkInterrupted, then drops the spectator because more than 128
+/// inputs are unacknowledged - and the spectator's packets come through again within a tick or two of that.
+pub fn cap_case(i: u64, seed: u64) -> Scenario {
+    let mut k = i;
+    let end = 118 + (k % 24) as u32; // outage length in ticks
+    k /= 24;
+    let lat = [0u16, 20, 45][(k % 3) as usize];
+    k /= 3;
+    let fps = [60u16, 100][(k % 2) as usize];
+    k /= 2;
+    let notify = [100u32, 400, 1500][(k % 3) as usize];
+    let mut sc = Scenario::basic(mix(seed ^ 0xca9, i), 1 + (i % 2) as usize);
+    if sc.peers.len() == 1 {
+        sc.peers[0].locals = 2;
+    }
+    sc.fps = fps;
+    sc.sched = 0;
+    sc.notify_ms = notify;
+    sc.timeout_ms = 20_000;
+    sc.max_pred = [8u8, 2][(i / 3 % 2) as usize];
+    sc.link = LinkProfile { loss: 0, dup: 0, lat_min: lat, lat_max: lat };
+    sc.specs.push(SpecSpec { host: 0, max_behind: 10, catchup: 2, slow: 0, window: sc.max_pred });
+    let per = (1000 / fps as u32).max(1);
+    sc.ops.push(Op::Outage { tick: 60, from: spec_addr(0), to: peer_addr(0), len_ms: end * per });
+    sc.ticks = 60 + end + 120;
+    sc.settle = 60;
+    sc
+}
+const NCAP: u64 = 24 * 3 * 2 * 3;
+
 pub fn run_prop(ctx: &Ctx) -> PropReport {
     let mut rep = PropReport::new("C12", "exploration");
     let seed = ctx.seed;
@@ -281,6 +312,9 @@ pub fn run_prop(ctx: &Ctx) -> PropReport {
     rep.part(|| run_enum(ctx, "restart_during_handshake",
         "enumeration: one of two peers (sometimes hosting a spectator) is restarted on the same address - a new session object with a new magic number - at tick 1..=40 of the handshake (and possibly a second time 3-13 ticks later) x latency {0,20,60,110 ms} x three timeout settings x window {8,0,2}, loss-free; the restart is only carried out while no other node has reported that address Synchronized; oracle: grammar, nonce ledger, Running iff all synchronized, exact timing prediction (no NetworkInterrupted / Disconnected on a healthy link), and everybody advances at the end; non-trivial = a restart was carried out",
         NRESTART, move |i| restart_case(i, seed), eval_restart, true));
+    rep.part(|| run_enum(ctx, "cap_then_packets",
+        "enumeration: a host (all-local or with one remote peer) and a spectator whose outgoing packets are lost for 118..=141 ticks with a 20 s timeout and notify delays {100, 400, 1500 ms} x latency {0,20,45 ms} x fps {60,100}: the host reports NetworkInterrupted, then disconnects the spectator when more than 128 inputs are unacknowledged, and the spectator's packets arrive again within a few ticks of that moment; oracle: per-address grammar (nothing after Disconnected), queue bound; non-trivial = the spectator was disconnected",
+        NCAP, move |i| cap_case(i, seed), |sc| { let mut r = eval(sc); r.nontrivial = r.classes.contains(&"timeout_disconnect"); r }, true));
     rep.floors.push(("handshake".into(), 0.3));
     rep.assumptions = vec!["event instants are poll instants; the timing predictor is exact at poll granularity and is applied to sessions with <= 2 peers (endpoints in larger sessions can be disconnected through gossip, which is C10's space)".into()];
     rep
